@@ -316,6 +316,64 @@ def check(ctx):
             ctx.ob('C17.2', sc, test, ok,
                    'and reports failure (returns False)',
                    construct='other-owner branch: returns False')
+    # success is claimed only for a node that is ours: every truthy return of
+    # _safe_create follows the create itself or the owner-session equality
+    creates = [n for n, c in K.nodes_calling(
+        graph, lambda c: K.callee_text(c).endswith('zkutils.create') or
+        K.is_meth(c, 'create'))]
+    for ret in [n for n in graph.nodes if n.kind == 'return']:
+        val = ret.ast.value
+        if not (isinstance(val, ast.Constant) and val.value is True):
+            continue
+        ok = K.guarded_by(graph, ret, lambda e: (
+            e.src in creates and e.kind != 'exc') or any(
+                _session_eq(a, True, sc) for a in nz.facts_of_edge(e)))
+        ctx.ob('C17.2', sc, ret, ok,
+               '_safe_create reports success only for a node it created or '
+               'one its own session owns', construct='success only if ours')
+    others = [n for n in graph.nodes if n.kind == 'return' and not (
+        isinstance(n.ast.value, ast.Constant) and
+        n.ast.value.value in (True, False))]
+    ctx.ob('C17.2', sc, others[0] if others else None, not others,
+           '_safe_create answers with a plain True / False',
+           construct='plain result')
+    # the wait: the watch set on the other owner's node retries the request
+    # exactly when that node is gone, and stops watching then
+    wt = svc.methods.get('_watch')
+    if wt is not None:
+        for name, cb in sorted(wt.nested_view().items()):
+            cgraph = ctx.cfg(cb)
+            cnz = N.Normaliser()
+            params = cb.params()
+            if len(params) < 3:
+                continue
+            data_p, event_p = params[0], params[2]
+            retries = [n for n, c in K.nodes_calling(
+                cgraph, lambda c: K.is_meth(c, 'retry_request'))]
+
+            def gone(edge, data_p=data_p):
+                for a in cnz.facts_of_edge(edge):
+                    if a.key[0] == 'is' and a.key[3] and \
+                            a.key[1] == data_p and a.key[2] == 'None':
+                        return True
+                    if a.key[0] == 'cmp' and a.key[1] == '==' and \
+                            "'DELETED'" in [t for t, _c in a.key[2]]:
+                        return True
+                return False
+            okw = bool(retries) and all(
+                K.guarded_by(cgraph, r, gone) for r in retries)
+            rets = [n for n in cgraph.nodes if n.kind == 'return']
+            okret = bool(rets) and all(
+                isinstance(r.ast.value, ast.Constant) and (
+                    r.ast.value.value is False) == any(
+                        r in K.cut_reach(cgraph, x, follow_exc=False)
+                        for x in retries) for r in rets)
+            ctx.ob('C17.2', cb, retries[0] if retries else None,
+                   okw and okret,
+                   'the wait retries the request only when the other '
+                   "owner's node is gone (no data / DELETED) and stops "
+                   'watching exactly then',
+                   construct='wait callback')
     for func in (sc, sd):
         sid = [s for s in K.walk_no_nested(func.node)
                if isinstance(s, ast.Assign) and
